@@ -146,8 +146,11 @@ func (s *Server) Set(ctx context.Context, req *gnmi.SetRequest) (*gnmi.SetRespon
 	}
 
 	for transactionEvent := range eventCh {
+		// an asynchronous caller waits for the commit: a transaction that is already APPLIED when its state is
+		// first seen (replay) has been committed too
 		if (transactionEvent.Transaction.TransactionStrategy.Synchronicity == configapi.TransactionStrategy_ASYNCHRONOUS &&
-			transactionEvent.Transaction.Status.State == configapi.TransactionStatus_COMMITTED) ||
+			(transactionEvent.Transaction.Status.State == configapi.TransactionStatus_COMMITTED ||
+				transactionEvent.Transaction.Status.State == configapi.TransactionStatus_APPLIED)) ||
 			(transactionEvent.Transaction.TransactionStrategy.Synchronicity == configapi.TransactionStrategy_SYNCHRONOUS &&
 				transactionEvent.Transaction.Status.State == configapi.TransactionStatus_APPLIED) {
 			updateResults := make([]*gnmi.UpdateResult, 0)
